@@ -63,6 +63,19 @@ fn exec_cresult_roundtrip<T, E>(c: CResult<T, E>) -> (r: CResult<T, E>)
     let o: Result<T, E> = Result::from(c);
     CResult::from(o)
 }
+// unwrap after the conversions: the payload that went in comes out (callers see only the contracts)
+fn exec_some_unwrap<T>(t: T) -> (r: T)
+    ensures r == t
+{
+    let c: COption<T> = COption::from(Some(t));
+    c.unwrap()
+}
+fn exec_ok_unwrap<T, E: core::fmt::Debug>(t: T) -> (r: T)
+    ensures r == t
+{
+    let c: CResult<T, E> = CResult::from(Ok(t));
+    c.unwrap()
+}
 // vacuity canary: must FAIL
 proof fn canary_c12_must_fail<T>(o: Option<T>)
     ensures opt_to_c(o) is None
